@@ -1,17 +1,20 @@
 #!/bin/bash
 # confirm_seed.sh <ID> <relevant existing test> : re-check a sub-agent's seeded change in its scratch worktree
 #  1. demo fails with the change, 2. demo passes without it, 3. the named existing test still passes with the change.
+# The change is taken out and put back with `git apply -R` / `git apply` of a diff file: the stash of git is shared by
+# all worktrees of a repository and collided with sub-agents working in parallel.
 ID=$1; T=$2; W=/tmp/seed-$ID; MK="make -f /tmp/seedtools/Makefile.seed -C $W"
 out=/tmp/seed-$ID/confirm.log; : > $out
 cd $W || exit 2
 git -C $W diff --quiet -- src && { echo "no change applied in $W" | tee -a $out; exit 2; }
+git -C $W diff -- src > $W/_confirm_change.diff
 $MK -j8 lib >>$out 2>&1
 g++ -std=gnu++14 -O1 -g -w -DHAVE_CONFIG_H -I/repo -Isrc demo/demo.cc _obj/libtmcg.a -lgcrypt -lgpg-error -lgmp -lpthread -o _obj/demo_with >>$out 2>&1
 ( cd $W && timeout 1800 ./_obj/demo_with >>$out 2>&1 ); WITH=$?
 if [ -n "$T" ]; then $MK test T=$T >>$out 2>&1; TST=$(grep "exit status of $T" $out | tail -1 | awk '{print $NF}'); else TST=skipped; fi
-git -C $W stash -q >>$out 2>&1
+git -C $W apply -R $W/_confirm_change.diff >>$out 2>&1 || { echo "cannot take the change out" | tee -a $out; exit 2; }
 $MK -j8 lib >>$out 2>&1
 g++ -std=gnu++14 -O1 -g -w -DHAVE_CONFIG_H -I/repo -Isrc demo/demo.cc _obj/libtmcg.a -lgcrypt -lgpg-error -lgmp -lpthread -o _obj/demo_without >>$out 2>&1
 ( cd $W && timeout 1800 ./_obj/demo_without >>$out 2>&1 ); WITHOUT=$?
-git -C $W stash pop -q >>$out 2>&1
+git -C $W apply $W/_confirm_change.diff >>$out 2>&1; rm -f $W/_confirm_change.diff
 echo "SEED $ID: demo with change exit=$WITH, without change exit=$WITHOUT, existing test $T with change exit=$TST"
